@@ -46,6 +46,7 @@ class Ctx:
         self.inconclusive = []     # strings
         self.evaluations = 0
         self.nontrivial = set()    # hashes of distinct non-trivial cases
+        self.nontrivial_counted = 0   # distinct non-trivial cases counted by a monitor binary itself (library-level checks)
         self.samples = []
         self.cov = {}              # extra coverage counters
         self.rule = ''
@@ -108,7 +109,7 @@ class Ctx:
             print('KNOWN-FINDING: property=%s %s: %s (re-observed on %d case(s))' % (self.prop, fid, f['what'], n))
         cov = dict(self.cov)
         cov['evaluations'] = int(self.evaluations)
-        cov['distinct_nontrivial'] = len(self.nontrivial)
+        cov['distinct_nontrivial'] = len(self.nontrivial) + int(self.nontrivial_counted)
         cov['rule'] = self.rule
         cov['samples'] = self.samples
         cov['inconclusive'] = len(self.inconclusive)
@@ -126,15 +127,15 @@ class Ctx:
         problems = validate_evidence(ev)
         shutil.rmtree(self.work, ignore_errors=True)
         print('%s tier=%s seed=%d: evaluations=%d distinct_nontrivial=%d violations=%d known=%d inconclusive=%d wall=%.1fs' % (
-            self.prop, self.tier, self.seed, self.evaluations, len(self.nontrivial), len(self.violations),
+            self.prop, self.tier, self.seed, self.evaluations, len(self.nontrivial) + self.nontrivial_counted, len(self.violations),
             sum(self.known_hits.values()), len(self.inconclusive), wall))
         if self.violations:
             return 1
         if problems:
             print('HARNESS-ERROR evidence invalid: %s' % '; '.join(problems))
             return 2
-        if self.evaluations == 0 or len(self.nontrivial) < 2:
-            print('HARNESS-ERROR nothing conclusive was observed (evaluations=%d, nontrivial=%d)' % (self.evaluations, len(self.nontrivial)))
+        if self.evaluations == 0 or len(self.nontrivial) + self.nontrivial_counted < 2:
+            print('HARNESS-ERROR nothing conclusive was observed (evaluations=%d, nontrivial=%d)' % (self.evaluations, len(self.nontrivial) + self.nontrivial_counted))
             return 2
         return 0
 
